@@ -23,6 +23,8 @@ def showBranch : Branch → String
     c16.rot3   alpha c s  ax ay az
     c16.rot3d  alpha c s                      (default axis argument = (0,0,1))
     c16.rotg   alpha c s  dim  n a1…an        (guards: any dim, any axis dimension)
+    c16.rot3h  alpha c s  ax ay az  kind n e1…en   (the axis object is produced by history `kind`, extras e_i)
+    c16.sphaxh r theta phi  ct st cp sp  ax ay az  kind n e1…en
     c16.sph    r theta phi  ct st cp sp
     c16.sphax  r theta phi  ct st cp sp  ax ay az
     c16.angle  n v…  m w…
@@ -46,6 +48,19 @@ def handle : Handler := fun op args =>
       | .m3 m => "ok 3 " ++ showRats m.toList
       | .nan => "undef"
       | .err => "err"
+  | "c16.rot3h" => withArgs (do let _ ← pRat; let c ← pRat; let s ← pRat; let a ← pV3; let k ← pNat; let ex ← pRats; pure (c, s, a, k, ex)) args
+      fun (c, s, a, k, ex) =>
+      match (axisHistory k a.x a.y a.z ex).axis3 with
+      | none => "err"
+      | some ax =>
+        match rotationAxis sqD c s ax with
+        | some m => "ok " ++ showRats m.toList
+        | none => "undef"
+  | "c16.sphaxh" => withArgs (do let q ← pSph; let a ← pV3; let k ← pNat; let ex ← pRats; pure (q, a, k, ex)) args
+      fun ((r, ct, st, cp, sp), a, k, ex) =>
+      match (axisHistory k a.x a.y a.z ex).axis3 with
+      | none => "err"
+      | some ax => "ok " ++ showRats (sphericalAxis sqD r ct st cp sp ax).toList ++ " " ++ showBranch (sphericalBranch sqD ax)
   | "c16.sph" => withArgs pSph args fun (r, ct, st, cp, sp) =>
       "ok " ++ showRats (spherical r ct st cp sp).toList
   | "c16.sphax" => withArgs (do let q ← pSph; let a ← pV3; pure (q, a)) args fun ((r, ct, st, cp, sp), a) =>
